@@ -42,6 +42,7 @@ type pxTCPL struct {
 	ln   *net.TCPListener
 }
 type pxConn struct {
+	ephem     string // "ip:port" of the proxy's end of a connection the proxy dialled
 	id        int
 	c         net.Conn
 	li        int // listener it talks to (driver-initiated), -1 for connections the proxy opened
@@ -207,7 +208,7 @@ func (pc *pxCase) drain(e int) (outs []pxOut, closed []int) {
 			if c == nil {
 				break
 			}
-			cn := &pxConn{id: pc.nextConn, c: c, li: -1}
+			cn := &pxConn{id: pc.nextConn, c: c, li: -1, ephem: c.RemoteAddr().String()}
 			pc.nextConn++
 			pc.conns = append(pc.conns, cn)
 			outs = append(outs, pxOut{"dial:" + l.ip + ":" + strconv.Itoa(l.port), []byte(strconv.Itoa(cn.id))})
@@ -282,6 +283,15 @@ func (pc *pxCase) learnBranch(e int, msg []byte) {
 func (pc *pxCase) canon(b []byte) []byte {
 	for e, a := range pc.actual {
 		b = bytes.ReplaceAll(b, []byte(a), []byte(pxPlaceholder(e)))
+	}
+	// the OS-chosen local port of a connection the proxy dialled shows up when the proxy names that
+	// transport in a Via / Record-Route: the model writes such a transport without a port
+	for _, c := range pc.conns {
+		if c.ephem != "" {
+			if i := strings.LastIndex(c.ephem, ":"); i > 0 {
+				b = bytes.ReplaceAll(b, []byte(c.ephem), []byte(c.ephem[:i]))
+			}
+		}
 	}
 	return b
 }
